@@ -14,12 +14,16 @@
 package udp
 
 import (
+	"errors"
 	"hash/crc32"
 	"net"
 )
 
 // maxBodyLength is the largest body a datagram can carry after the 8 bytes header.
 const maxBodyLength = 65507 - 8
+
+// ErrResponseEntityTooLarge is sent instead of a response that does not fit into a datagram.
+var ErrResponseEntityTooLarge = errors.New("Response entity too large")
 
 type data struct {
 	Index int
